@@ -514,8 +514,9 @@ class State(object):
                 continue
             c = sorted(v for v in pool if lo <= v <= hi)
             if len(c) > 14:
-                # keep the extremes and the small values
-                c = sorted(set(c[:7] + c[-7:]))
+                # keep the extremes, the small values and the all-ones patterns in between (masks, digit tables)
+                ones = [v for v in c if v > 0 and (v & (v + 1)) == 0 and v < (1 << 16)]
+                c = sorted(set(c[:7] + c[-7:] + ones[:6]))
             cands[a] = c or [lo]
         # order atoms: those appearing in most facts first; check a fact as soon as all its atoms are assigned
         fact_atoms = [(f, base_atoms(f)) for f in rel_facts]
